@@ -40,8 +40,9 @@ func (e *cenv) noteLoad(v val) val {
 		return v // covered by the heap typing axiom of that heap version
 	}
 	if strings.Contains(v.t, "q!") && e.qside != nil {
-		// a load under a quantifier: its well-formedness guards the quantifier body
-		if f := e.g.wf(v.t, v.typ, "", 0); f != "true" {
+		// a load under a quantifier: its well-formedness (references held by the heap of
+		// a state are allocated in that state) guards the quantifier body
+		if f := e.g.wf(v.t, v.typ, e.st.alloc, 0); f != "true" {
 			*e.qside = append(*e.qside, f)
 		}
 		return v
@@ -189,6 +190,9 @@ func (g *fgen) resolveType(ct *ctype, pkg *types.Package) (types.Type, error) {
 		}
 		if name == "real" {
 			return realType{}, nil
+		}
+		if name == "struct{}" {
+			return types.NewStruct(nil, nil), nil
 		}
 		if i := strings.LastIndex(name, "."); i >= 0 {
 			p := g.findPkgByName(pkg, name[:i])
